@@ -275,7 +275,40 @@ func genCaseC09(t *rapid.T) *Case {
 		// the parsed request has been resolved before, with every condition variable the other way round
 		c.PrimeVars = FlipBooleans(c)
 	}
+	if rapid.IntRange(0, 5).Draw(t, "wideSelectionSet") == 0 {
+		// the conditioned selection is one of very many in its selection set
+		padSelections(c.Doc, rapid.IntRange(40, 140).Draw(t, "padding"))
+	}
 	return c
+}
+
+// padSelections puts n more selections (aliased __typename) in front of the members of every
+// selection set that has a member carrying a directive.
+func padSelections(d *hx.Doc, n int) {
+	var walk func(sels *[]*hx.Sel)
+	walk = func(sels *[]*hx.Sel) {
+		has := false
+		for _, s := range *sels {
+			has = has || len(s.Dirs) > 0
+			if len(s.Sels) > 0 {
+				walk(&s.Sels)
+			}
+		}
+		if has {
+			pads := make([]*hx.Sel, 0, n+len(*sels))
+			for i := 0; i < n; i++ {
+				pads = append(pads, &hx.Sel{Kind: "field", Alias: fmt.Sprintf("zp%d", i), Name: "__typename"})
+			}
+			*sels = append(pads, *sels...)
+		}
+	}
+	for _, op := range d.Ops {
+		walk(&op.Sels)
+	}
+	for _, f := range d.Frags {
+		walk(&f.Sels)
+	}
+	d.Number()
 }
 
 // checkC09: data equals the reference (which implements the stated inclusion
@@ -325,13 +358,19 @@ func classesC09(c *Case, exp *hx.Expect) (bool, []string) {
 			cl = append(cl, "other-directive-on-the-selection")
 		}
 	}
-	both := false
+	both, wide := false, false
 	if exp != nil {
 		c.Doc.Walk(func(s *hx.Sel, depth int) {
 			if len(s.Dirs) >= 2 {
 				both = true
 			}
+			if s.Alias == "zp64" {
+				wide = true
+			}
 		})
+	}
+	if wide {
+		cl = append(cl, "conditioned-selection-beyond-the-64th-of-its-selection-set")
 	}
 	return both, cl
 }
